@@ -86,7 +86,17 @@ G_Fault(k, t) ==
        [] OTHER -> FALSE
   \* a task that dies owing its answer: the answer was already on its way (delivered by "latereply")
   /\ late' = IF txgate = "owed" /\ ~alive'[owedT] THEN late \cup {owedT} ELSE late
+  \* this script step is the update itself; G_FaultRecon is the same status learnt through reconciliation
+  /\ \A m \in msgs' \ msgs : m.type = "status" => m.via = "direct"
   /\ Step(<<"fault", k, t>>)
+  /\ UNCHANGED <<wgate, txgate, owedT, fgate, mgate, sgate, extra, shape>>
+
+G_FaultRecon(k, t) ==
+  /\ Stable /\ extra = "none" /\ txgate = "none" /\ k \in StatusKinds /\ "recon" \in Vias
+  /\ TaskTerminal(k, t)
+  /\ \A m \in msgs' \ msgs : m.type = "status" => m.via = "recon"
+  /\ late' = late
+  /\ Step(<<"fault", k, t, "recon">>)
   /\ UNCHANGED <<wgate, txgate, owedT, fgate, mgate, sgate, extra, shape>>
 
 \* the racing API transition, parked early (lock acquired, nothing sent) or late (state entered, lock held)
@@ -197,7 +207,7 @@ GenInit ==
 
 GenNext ==
   \/ G_Pipeline
-  \/ \E k \in Kinds, t \in Tasks : G_Fault(k, t)
+  \/ \E k \in Kinds, t \in Tasks : G_Fault(k, t) \/ G_FaultRecon(k, t)
   \/ \E g \in {"early", "late"} : G_Api(g)
   \/ G_ArmW \/ G_ReleaseW \/ G_ReleaseTx
   \/ \E t \in Tasks : G_ApiOwed(t) \/ G_Stale(t) \/ G_MasterUpdate(t, "noexec") \/ G_MasterUpdate(t, "noids")
